@@ -164,8 +164,13 @@ pub fn gen_any_graph(t: &mut Tape, tier: Tier) -> G {
 
 /// larger sparse graphs: chains, trees with a few chords, up to 12 (thorough 14) edges on up to E+1 vertices
 pub fn gen_sparse_large_graph(t: &mut Tape, tier: Tier) -> G {
-    let ne = t.range(8, tier.pick(12, 14));
-    let shape = t.below(4);
+    let mut ne = t.range(8, tier.pick(12, 14));
+    let mut shape = t.below(4);
+    if tier == Tier::Thorough && t.chance(0.01) {
+        // 2^15 / 2^16 table entries: only small-diameter shapes are affordable
+        ne = t.range(15, 16);
+        shape = 3;
+    }
     let mut edges: Vec<(u8, u8)> = vec![];
     let base = t.below(200) as u8;
     let lab = |v: usize| base.wrapping_add(v as u8);
